@@ -232,12 +232,8 @@ func run(v avfs.VFS, o opT) result {
 
 			return err
 		})
-		r.do("Readdirnames", func(s *sub) error {
-			n, err := fh.Readdirnames(-1)
-			s.Val = strings.Join(n, ",")
-
-			return err
-		})
+		readdirnames(r, fh, "Readdirnames", -1)
+		listCounts(r, fh, "")
 		r.do("Read", func(s *sub) error {
 			b := make([]byte, 8)
 			n, err := fh.Read(b)
@@ -300,6 +296,10 @@ func run(v avfs.VFS, o opT) result {
 		errOnly(func() error { return v.Truncate(p, 1) })
 	case "Chmod":
 		errOnly(func() error { return v.Chmod(p, 0o700|bits) })
+	case "Chown":
+		errOnly(func() error { return v.Chown(p, ownUID, ownGID) })
+	case "Lchown":
+		errOnly(func() error { return v.Lchown(p, ownUID, ownGID) })
 	case "OpenChmod":
 		if !r.do("", func(*sub) (err error) { fh, err = v.Open(p); return err }) {
 			break
@@ -428,10 +428,10 @@ const handleFree = "/x"
 // the methods are then those of an ordinary handle). Then every method of
 // avfs.File, in an order that lets each act on what the former left (reads
 // before writes, Chdir last, Close at the end): Name, Stat, ReadDir,
-// Readdirnames, Read, ReadAt, Seek, Write, WriteAt, WriteString, Truncate, Sync,
+// Readdirnames (count -1, then the counts of listCounts), Read, ReadAt, Seek, Write, WriteAt, WriteString, Truncate, Sync,
 // Chmod, Chown, Fd (only whether it answers), Stat again, Chdir + Getwd +
 // ReadDir(".") by name from where Chdir led (if it did), Close, and Stat of the handle after
-// Close. Errors of the methods carry the handle's name: compared like every
+// Close followed by ReadDir and Readdirnames with the counts of listCounts. Errors of the methods carry the handle's name: compared like every
 // error path.
 func runHandle(v avfs.VFS, o opT, r *runner) {
 	p := o.A
@@ -483,24 +483,9 @@ func runHandle(v avfs.VFS, o opT, r *runner) {
 
 	r.do("Name", func(s *sub) error { s.Paths = []string{fh.Name()}; return nil })
 	stat("Stat")
-	r.do("ReadDir", func(s *sub) error {
-		es, err := fh.ReadDir(-1)
-
-		var names []string
-		for _, e := range es {
-			names = append(names, e.Name()+fsx.TypeChar(e.Type()))
-		}
-
-		s.Val = strings.Join(names, ",")
-
-		return err
-	})
-	r.do("Readdirnames", func(s *sub) error {
-		n, err := fh.Readdirnames(-1)
-		s.Val = strings.Join(n, ",")
-
-		return err
-	})
+	readDir(r, fh, "ReadDir", -1)
+	readdirnames(r, fh, "Readdirnames", -1)
+	listCounts(r, fh, "")
 	r.do("Read", func(s *sub) error {
 		b := make([]byte, 8)
 		n, err := fh.Read(b)
@@ -581,6 +566,63 @@ func runHandle(v avfs.VFS, o opT, r *runner) {
 
 	r.do("Close", func(*sub) error { return fh.Close() })
 	stat("StatClosed")
+	listCounts(r, fh, "Closed")
+}
+
+// listCountsArgs are the count arguments of File.ReadDir and File.Readdirnames
+// next to the -1 of the plain sub-calls: a positive count and zero.
+//
+// Lesson (round 11): a count or size argument selects a code path by its SIGN
+// (n <= 0: everything at once, errors as they are; n > 0: a window, io.EOF at
+// the end, shortcuts for "nothing was read"), and what a handle IS selects
+// another (a directory, a regular file - the call is refused with the handle's
+// name in the error -, a closed handle). Helpers of the library (ReadDir,
+// WalkDir) only ever use n <= 0 on a directory, so a wrapper's method is right
+// for them and wrong beside them. Every method of a handle that takes a count
+// is called with a count of every sign on every kind of handle the alphabet
+// opens - and again after Close -, outcome, entries and the path inside the
+// error compared with the twin's like everywhere else.
+var listCountsArgs = []int{1, 0}
+
+// listCounts calls ReadDir and Readdirnames of fh with the counts of
+// listCountsArgs (first the positive one, from the start of the directory: the
+// calls with n <= 0 before it have read it whole and rewound it; the window it
+// opens is closed by the n = 0 that follows). Labels
+// "ReadDir<when>(n)", "Readdirnames<when>(n)".
+func listCounts(r *runner, fh avfs.File, when string) {
+	for _, n := range listCountsArgs {
+		readDir(r, fh, fmt.Sprintf("ReadDir%s(%d)", when, n), n)
+	}
+
+	for _, n := range listCountsArgs {
+		readdirnames(r, fh, fmt.Sprintf("Readdirnames%s(%d)", when, n), n)
+	}
+}
+
+// readDir: File.ReadDir(n), names and types of the entries returned.
+func readDir(r *runner, fh avfs.File, label string, n int) {
+	r.do(label, func(s *sub) error {
+		es, err := fh.ReadDir(n)
+
+		var names []string
+		for _, e := range es {
+			names = append(names, e.Name()+fsx.TypeChar(e.Type()))
+		}
+
+		s.Val = strings.Join(names, ",")
+
+		return err
+	})
+}
+
+// readdirnames: File.Readdirnames(n).
+func readdirnames(r *runner, fh avfs.File, label string, n int) {
+	r.do(label, func(s *sub) error {
+		names, err := fh.Readdirnames(n)
+		s.Val = strings.Join(names, ",")
+
+		return err
+	})
 }
 
 // baseProbes are the cwd-dependent calls made through the wrapper (and on the
